@@ -36,3 +36,114 @@ def ind2sub_roundtrip(E, shape):
     for k, n in enumerate(shape):
         E.true((subs[0, k] >= 0) & (subs[0, k] < n), f"subscript {k} in range")
     E.eq(U.tt_sub2ind(shape, subs), [i], "sub2ind(ind2sub(i)) == i")
+
+
+def _rows_eq(a, b):
+    return all(bool(x == y) for x, y in zip(a, b))
+
+
+def _member(r, rows):
+    return any(_rows_eq(r, q) for q in rows)
+
+
+def _sym_rows(E, name, nrows, ncols, hi):
+    rows = [[E.int(f"{name}{i}_{j}", 0, hi) for j in range(ncols)] for i in range(nrows)]
+    return rows, (O.int_rows(rows) if nrows else np.empty((0, ncols), dtype=int))
+
+
+def _distinct(rows):
+    return all(not _rows_eq(rows[i], rows[j]) for i in range(len(rows)) for j in range(i))
+
+
+@ob("C17", params=[dict(ra=ra, rb=rb) for ra in range(0, 4) for rb in range(0, 3)], max_paths=30000,
+    bounds="integer row matrices with ra x 2 and rb x 2 symbolic entries in [0,1] (so repeated rows and all overlap patterns occur), ra<=3, rb<=2, empty operands")
+def row_helpers(E, ra, rb):
+    """ismember / intersect / setdiff / union on rows equal set algebra on rows; indices refer to the first operand"""
+    A_rows, A = _sym_rows(E, "a", ra, 2, 1)
+    B_rows, B = _sym_rows(E, "b", rb, 2, 1)
+    # ismember: for every search row the index of an equal source row (or -1)
+    matched, loc = U.tt_ismember_rows(A, B)
+    E.true(len(matched) == ra and len(loc) == ra, "ismember sizes")
+    for i, r in enumerate(A_rows):
+        m = _member(r, B_rows)
+        E.true(bool(matched[i]) == m, "ismember flag")
+        li = int(loc[i])
+        if m:
+            E.true(0 <= li < rb and _rows_eq(B_rows[li], r), "ismember location points at an equal row")
+        else:
+            E.true(li == -1, "ismember location is -1 for a missing row")
+    if ra and rb:
+        un = U.tt_union_rows(A, B)
+        un_rows = [list(r) for r in np.asarray(un).tolist()]
+        E.true(_distinct(un_rows), "union_rows: no repeated row")
+        E.true(all(_member(r, un_rows) for r in A_rows + B_rows), "union_rows: contains every row of A and B")
+        E.true(all(_member(r, A_rows + B_rows) for r in un_rows), "union_rows: contains nothing else")
+    if not (_distinct(A_rows) and _distinct(B_rows)):
+        return  # index-returning helpers are specified (and used by pyttb) on duplicate-free row lists; the index spaces differ once A repeats a row
+    inter = [int(i) for i in U.tt_intersect_rows(A, B)]
+    want = [i for i, r in enumerate(A_rows) if _member(r, B_rows)]
+    E.true(sorted(inter) == want, "intersect_rows: indices into A of the rows also in B", f"{inter} vs {want}")
+    diff = [int(i) for i in U.tt_setdiff_rows(A, B)]
+    wantd = [i for i, r in enumerate(A_rows) if not _member(r, B_rows)]
+    E.true(sorted(diff) == wantd, "setdiff_rows: indices into A of the rows not in B", f"{diff} vs {wantd}")
+
+
+@ob("C17", params=[dict(N=N) for N in (1, 2, 3)] + [dict(N=4, _tier="thorough")], max_paths=60000,
+    bounds="N<=3 (T:4); dims / exclude_dims of every length 1..N with every entry a solver-enumerated integer in [-1, N]; M in {None, |dims|, N}")
+def dimscheck(E, N):
+    """tt_dimscheck returns the sorted selection (or complement) and the multiplicand index of each; ill-formed arguments raise"""
+    L = int(E.int("len", 1, N))
+    d = [int(E.int(f"d{i}", -1, N)) for i in range(L)]
+    excl = E.cases("exclude", 2) == 1
+    mform = E.cases("mform", 3)
+    valid = all(0 <= x < N for x in d) and len(set(d)) == L
+    sel = sorted(d) if not excl else [m for m in range(N) if m not in d]
+    P = len(sel)
+    M = None if mform == 0 else (P if mform == 1 else N)
+    kw = dict(exclude_dims=np.array(d)) if excl else dict(dims=np.array(d))
+    if not valid:
+        # (the helper itself promises rejection only of negative dims and of out-of-range exclude_dims;
+        #  out-of-range / repeated dims are rejected by the public operations -- C19)
+        if any(x < 0 for x in d) or (excl and any(x >= N for x in d)):
+            E.raises(lambda: U.tt_dimscheck(N, M, **kw), f"negative / out-of-range {'exclude_dims' if excl else 'dims'} rejected")
+        return
+    if M is not None and P == 0:
+        return
+    ok, res = E.call(lambda: U.tt_dimscheck(N, M, **kw), "tt_dimscheck on a valid selection")
+    if not ok:
+        return
+    sdims, vidx = res
+    E.true([int(x) for x in sdims] == sel, "sdims is the sorted selection / complement", f"{list(sdims)} vs {sel}")
+    if M is None:
+        E.true(vidx is None, "no multiplicand index without M")
+    elif M == N and P != N:
+        E.true([int(x) for x in vidx] == sel, "M == N: multiplicands indexed by mode")
+    elif not excl:
+        E.true(all(d[int(vidx[i])] == sel[i] for i in range(P)), "M == |dims|: dims[vidx[i]] == sdims[i]")
+    else:
+        E.true([int(x) for x in vidx] == list(range(P)), "M == P with exclude_dims: multiplicands in order")
+
+
+@ob("C17", params=[dict(rows=(2,), R=2), dict(rows=(2, 3), R=2), dict(rows=(2, 3, 2), R=1), dict(rows=(3, 2, 2), R=2, _tier="thorough")],
+    bounds="1-3 symbolic matrices with a common column count, reverse on/off")
+def khatrirao(E, rows, R):
+    """khatrirao is the column-wise Kronecker product in the stated (or reversed) order"""
+    Ms = [E.reals(f"M{k}_", (r, R)) for k, r in enumerate(rows)]
+    E.eq(ttb.khatrirao(*Ms), O.ref_khatrirao(Ms), "khatrirao(*Ms)")
+    E.eq(ttb.khatrirao(*Ms, reverse=True), O.ref_khatrirao(Ms[::-1]), "khatrirao(reverse=True)")
+
+
+@ob("C17", params=[dict(N=N) for N in (2, 3, 4)], bounds="every mode n for fc/bc/t; every subset split for rdims-only / cdims-only")
+def wrap_dims(E, N):
+    """gather_wrap_dims implements the forward-cyclic, backward-cyclic and transposed conventions"""
+    for n in range(N):
+        r, c = U.gather_wrap_dims(N, np.array([n]), cdims_cyclic="fc")
+        E.true(list(r) == [n] and list(c) == [(n + 1 + i) % N for i in range(N - 1)], f"fc n={n}", f"{list(c)}")
+        r, c = U.gather_wrap_dims(N, np.array([n]), cdims_cyclic="bc")
+        E.true(list(r) == [n] and list(c) == [(n - 1 - i) % N for i in range(N - 1)], f"bc n={n}", f"{list(c)}")
+        r, c = U.gather_wrap_dims(N, np.array([n]), cdims_cyclic="t")
+        E.true(list(c) == [n] and list(r) == [m for m in range(N) if m != n], f"t n={n}")
+        r, c = U.gather_wrap_dims(N, cdims=np.array([n]))
+        E.true(list(c) == [n] and list(r) == [m for m in range(N) if m != n], f"cdims only n={n}")
+        r, c = U.gather_wrap_dims(N, rdims=np.array([n]))
+        E.true(list(r) == [n] and list(c) == [m for m in range(N) if m != n], f"rdims only n={n}")
